@@ -808,12 +808,17 @@ func c15Judge(rows []c15Row, ch c15Chain, st c15Step, out *c15Out) string {
 			return fmt.Sprintf("RowsAffected %d, the query returns %d rows", out.RA, len(want))
 		}
 		if len(want) > 0 {
+			// under a non-total ordering (in particular none at all) the LIMIT/OFFSET window may hold any matching row
+			cands := want
+			if !total {
+				cands = match
+			}
 			ok := false
-			for _, k := range wantKeys {
-				ok = ok || k == out.Prim
+			for _, c := range cands {
+				ok = ok || c.ID == out.Prim
 			}
 			if !ok {
-				return fmt.Sprintf("scanned id %d is not among the rows %v", out.Prim, wantKeys)
+				return fmt.Sprintf("scanned id %d is not among the rows %v", out.Prim, c15IDs(cands))
 			}
 		}
 		return ""
